@@ -310,8 +310,8 @@ pub fn check_scale(n: usize, auth_at: usize, ttl_of: &dyn Fn(usize) -> u32) -> V
             for (name, idxs) in [("x.svc.local", (0..n).filter(|i| i % 7 != 6).collect::<Vec<_>>()), ("svc.local", (0..n).filter(|i| i % 7 == 6).collect::<Vec<_>>())] {
                 let nm = RefName::txt(name);
                 let ln = lib_name(&nm);
-                let got_auth: Vec<u32> = store.get_domain_resources(&ln, DomainResourceFilter::authoritative(false)).flatten().filter_map(|r| match &r.rdata { simple_dns::rdata::RData::A(a) => Some(a.address), _ => None }).collect();
-                let got_all: Vec<u32> = store.get_domain_resources(&ln, DomainResourceFilter::all()).flatten().filter(|r| obs_name(&r.name) == RefName::txt(name)).filter_map(|r| match &r.rdata { simple_dns::rdata::RData::A(a) => Some(a.address), _ => None }).collect();
+                let got_auth: std::collections::HashSet<u32> = store.get_domain_resources(&ln, DomainResourceFilter::authoritative(false)).flatten().filter_map(|r| match &r.rdata { simple_dns::rdata::RData::A(a) => Some(a.address), _ => None }).collect();
+                let got_all: std::collections::HashSet<u32> = store.get_domain_resources(&ln, DomainResourceFilter::all()).flatten().filter(|r| obs_name(&r.name) == RefName::txt(name)).filter_map(|r| match &r.rdata { simple_dns::rdata::RData::A(a) => Some(a.address), _ => None }).collect();
                 for i in &idxs {
                     let addr = 0x0a00_0000 + *i as u32;
                     let is_auth = left[*i] == Some(u32::MAX);
@@ -336,7 +336,8 @@ pub fn check_scale(n: usize, auth_at: usize, ttl_of: &dyn Fn(usize) -> u32) -> V
                 store.add_cached_resource(r);
                 left[i] = Some(if ttl >= 59 { 1_000_000 } else { ttl });
             }
-            if i % 5 == 4 || i + 1 == n || [7usize, 8, 15, 16, 31, 32, 33, 63, 64, 65].contains(&i) {
+            let near_pow2 = (i + 2).is_power_of_two() || (i + 1).is_power_of_two() || i.is_power_of_two();
+            if (n <= 600 && i % 5 == 4) || i + 1 == n || near_pow2 || [7usize, 8, 15, 16, 31, 32, 33, 63, 64, 65].contains(&i) {
                 read(&store, &left, &format!("after inserting {} records", i + 1), &mut bad);
             }
             if bad.len() > 3 {
@@ -365,6 +366,37 @@ pub fn check_scale(n: usize, auth_at: usize, ttl_of: &dyn Fn(usize) -> u32) -> V
                 read(&store, &left, &format!("{} s after, then one re-reception", tick), &mut bad);
             }
         }
+        // churn: remove every record one by one, then receive them all again, then clear
+        for round in 0..2 {
+            for i in 0..n {
+                let r = lib_rr(&recs[i]).map_err(|e| e)?.into_owned();
+                store.remove_resource_record(&r);
+                left[i] = None;
+                if (n <= 600 && i % 7 == 3) || i + 1 == n || (i + 1).is_power_of_two() {
+                    read(&store, &left, &format!("churn round {}: after removing {} records", round, i + 1), &mut bad);
+                }
+                if bad.len() > 3 {
+                    return Ok(bad);
+                }
+            }
+            for i in (0..n).rev() {
+                let mut r = lib_rr(&recs[i]).map_err(|e| e)?.into_owned();
+                if i == auth_at && round == 1 {
+                    store.add_authoritative_resource(r);
+                    left[i] = Some(u32::MAX);
+                } else {
+                    r.ttl = 1000;
+                    store.add_cached_resource(r);
+                    left[i] = Some(1_000_000);
+                }
+            }
+            read(&store, &left, &format!("churn round {}: after receiving all {} records again", round, n), &mut bad);
+        }
+        store.clear();
+        for l in left.iter_mut() {
+            *l = None;
+        }
+        read(&store, &left, "after clear", &mut bad);
         Ok(bad)
     });
     match r {
@@ -442,6 +474,78 @@ pub fn check_ingest(seq: &[(u32, bool)], gap: u64, asynchronous: bool) -> Vec<Fi
     }
 }
 
+/// The real services under the real clock: a watcher (sync or tokio ServiceDiscovery) hears one
+/// announcement from a raw UDP peer (TTL 1, or TTL 120 with the cache-flush bit), lists it, and
+/// must have dropped it 1.8 s and 2.4 s after the announcement.
+pub fn socket_expiry_case(k: usize, asynchronous: bool, flush: bool) -> Result<Vec<Finding>, String> {
+    use std::time::{Duration, Instant};
+    let svc = format!("_c20x{}{}{}._tcp.local", k, if asynchronous { "a" } else { "s" }, if flush { "f" } else { "t" });
+    let case = json!({"kind": "socket-expiry", "k": k, "async": asynchronous, "flush": flush});
+    let peer = RefName::txt(&format!("peer.{}", svc));
+    let announcement = {
+        let mut p = RefPacket { id: 0, flags: F_QR | F_AA, ..Default::default() };
+        let ttl = if flush { 120 } else { 1 };
+        p.answers.push(RefRR { name: peer.clone(), class: 1, cache_flush: flush, ttl, rdata: typed(33, vec![Val::U16(0), Val::U16(0), Val::U16(4000), Val::Name(peer.clone())]) });
+        p.answers.push(RefRR { name: peer.clone(), class: 1, cache_flush: flush, ttl, rdata: typed(1, vec![Val::U32(0x0a010203)]) });
+        p.encode_compressed(0, true)
+    };
+    let rt = tokio::runtime::Builder::new_multi_thread().worker_threads(2).enable_all().build().map_err(|e| format!("{}", e))?;
+    enum W {
+        S(simple_mdns::sync_discovery::ServiceDiscovery),
+        A(simple_mdns::async_discovery::ServiceDiscovery),
+    }
+    let r = guarded(|| -> Result<Vec<(String, String)>, String> {
+        let me = simple_mdns::InstanceInformation::new(format!("watcher{}", k)).with_port(4999).with_ip_address("10.9.9.1".parse().unwrap());
+        let w = if asynchronous {
+            W::A(rt.block_on(async { simple_mdns::async_discovery::ServiceDiscovery::new(me, &svc, 120) }).map_err(|e| format!("{:?}", e))?)
+        } else {
+            W::S(simple_mdns::sync_discovery::ServiceDiscovery::new(me, &svc, 120).map_err(|e| format!("{:?}", e))?)
+        };
+        let listed = |w: &W| -> bool {
+            let set = match w {
+                W::S(s) => s.get_known_services(),
+                W::A(a) => rt.block_on(a.get_known_services()),
+            };
+            set.iter().any(|i| i.unescaped_instance_name() == "peer")
+        };
+        std::thread::sleep(Duration::from_millis(150));
+        let tx = std::net::UdpSocket::bind((std::net::Ipv4Addr::UNSPECIFIED, 0)).map_err(|e| format!("{}", e))?;
+        let _ = tx.set_multicast_loop_v4(true);
+        tx.send_to(&announcement, (std::net::Ipv4Addr::new(224, 0, 0, 251), 5353)).map_err(|e| format!("{}", e))?;
+        let sent = Instant::now();
+        let mut seen = false;
+        while sent.elapsed() < Duration::from_millis(700) {
+            if listed(&w) {
+                seen = true;
+                break;
+            }
+            std::thread::sleep(Duration::from_millis(25));
+        }
+        let mut bad = Vec::new();
+        if !seen {
+            // whether an announced peer gets listed is C15's question; without a listing there is nothing to expire
+            return Ok(bad);
+        }
+        for at in [1800u64, 2400] {
+            let now = sent.elapsed();
+            if now < Duration::from_millis(at) {
+                std::thread::sleep(Duration::from_millis(at) - now);
+            }
+            if listed(&w) {
+                bad.push(("socket-expiry|still-listed".to_string(), format!("a peer received once with {} is still listed {} ms after its announcement", if flush { "the cache-flush bit (TTL 120)" } else { "TTL 1" }, at)));
+                break;
+            }
+        }
+        Ok(bad)
+    });
+    rt.shutdown_timeout(Duration::from_millis(100));
+    match r {
+        Err(pn) => Ok(vec![finding(format!("C20|socket-expiry|{}", pn.sig()), format!("{:?}", pn), case)]),
+        Ok(Err(e)) => Err(e),
+        Ok(Ok(bad)) => Ok(bad.into_iter().map(|(t, d)| finding(format!("C20|{}|{}", t, if asynchronous { "tokio" } else { "sync" }), d, case.clone())).collect()),
+    }
+}
+
 pub fn real_traces() -> Vec<Vec<Op>> {
     vec![
         vec![Op::AddCached(1, 1, false), Op::Tick],
@@ -455,7 +559,7 @@ pub fn real_traces() -> Vec<Vec<Op>> {
 
 pub fn run(ctx: &Ctx) {
     let thorough = ctx.tier == crate::engine::Tier::Thorough;
-    ctx.set_rule("explicit-state search to the fixpoint over 27 operations (add-authoritative, add-cached with TTL 0/1/2/1000 or the cache-flush bit, remove, clear, tick 1 s) on three records at svc.local and x.svc.local; states deduplicated by (per record: absent / authoritative / cached with 1 or 2 s left / cached long / expired; owners touched since the last clear); every transition out of every state is executed on a fresh real store (virtual clock through the verif_advance seam) and observed immediately and after 1, 2 and 3 further ticks (remaining lifetimes are hidden state a single query cannot show); all 12 (name, filter) queries are judged against the reference store at each observation. thorough: additionally every history of length <= 5 without deduplication. The seam is validated by traces replayed with real sleeps. non-trivial = state holds a cached record");
+    ctx.set_rule("explicit-state search to the fixpoint over 27 operations (add-authoritative, add-cached with TTL 0/1/2/1000 or the cache-flush bit, remove, clear, tick 1 s) on three records at svc.local and x.svc.local; states deduplicated by (per record: absent / authoritative / cached with 1 or 2 s left / cached long / expired; owners touched since the last clear); every transition out of every state is executed on a fresh real store (virtual clock through the verif_advance seam) and observed immediately and after 1, 2 and 3 further ticks (remaining lifetimes are hidden state a single query cannot show); all 12 (name, filter) queries are judged against the reference store at each observation. thorough: additionally every history of length <= 6 without deduplication. The seam is validated by traces replayed with real sleeps. non-trivial = state holds a cached record");
     ctx.assume("clock seam: verif_advance(1) moves stored deadlines one second into the past; real time spent on a path is microseconds, every comparison is a whole second away from a boundary except exact expiry, which is decided the same way for any real delay >= 0; paths slower than 250 ms are re-run and a violation is reported only if it reproduces");
     ctx.assume("completeness is demanded at a record's own name; subdomain queries are judged for soundness only");
     let w = world();
@@ -556,7 +660,13 @@ pub fn run(ctx: &Ctx) {
                 }
             }
         }
-        let cases: Vec<(Vec<(u32, bool)>, u64, bool)> = seqs.iter().flat_map(|s| [0u64, 1, 3, 6].into_iter().flat_map(move |g| [false, true].into_iter().map(move |asy| (s.clone(), g, asy)))).collect();
+        // single receptions with TTLs that code tends to special-case (mDNS defaults, sign bit, maxima)
+        for ttl in [3u32, 4, 5, 6, 7, 10, 59, 60, 75, 119, 120, 121, 255, 256, 3600, 4500, 65535, 65536, 86400, 0x7fff_ffff, 0x8000_0000, 0x8000_0001, 0xffff_fffe, 0xffff_ffff] {
+            seqs.push(vec![(ttl, false)]);
+            seqs.push(vec![(ttl, true)]);
+            seqs.push(vec![(1, false), (ttl, false)]);
+        }
+        let cases: Vec<(Vec<(u32, bool)>, u64, bool)> = seqs.iter().flat_map(|s| [0u64, 1, 3, 6, 12].into_iter().flat_map(move |g| [false, true].into_iter().map(move |asy| (s.clone(), g, asy)))).collect();
         let chunks: Vec<&[(Vec<(u32, bool)>, u64, bool)]> = cases.chunks(16).collect();
         par_shards(ctx, &chunks, |cs, t: &mut Tally| {
             for (s, g, asy) in cs.iter() {
@@ -570,12 +680,15 @@ pub fn run(ctx: &Ctx) {
                 }
             }
         });
-        ctx.space("network path: every sequence of <= 2 (3 thorough) receptions over 8 (TTL, cache-flush) shapes of one record, as plain and compressed datagrams parsed and ingested by the real sync and async add_response_to_resources, read back immediately and every second for 0/1/3/6 s after each reception", cases.len() as u64, "complete");
+        ctx.space("network path: every sequence of <= 2 (3 thorough) receptions over 8 (TTL, cache-flush) shapes of one record, as plain and compressed datagrams parsed and ingested by the real sync and async add_response_to_resources, read back immediately and every second for 0/1/3/6/12 s after each reception; single receptions with 24 further TTLs (mDNS defaults, sign bit, maxima)", cases.len() as u64, "complete");
         ctx.sample(json!({"kind": "ingest", "seq": [[120, true]], "gap": 3, "async": false}));
     }
     // scale: many records under one name
     {
-        let sizes: Vec<usize> = vec![1, 2, 4, 8, 9, 15, 16, 17, 31, 32, 33, 34, 50, 63, 64, 65, 100, 128, 129, 200, 256, 257, 500];
+        let mut sizes: Vec<usize> = vec![1, 2, 4, 8, 9, 15, 16, 17, 31, 32, 33, 34, 50, 63, 64, 65, 100, 128, 129, 200, 256, 257, 500, 1000, 1023, 1024, 1025, 1026, 1100];
+        if thorough {
+            sizes.extend([2047usize, 2048, 2049, 4096, 4100]);
+        }
         let cases: Vec<(usize, usize)> = sizes.iter().flat_map(|n| [0usize, n / 2, n - 1].into_iter().map(move |a| (*n, a))).collect();
         par_shards(ctx, &cases, |(n, a), t: &mut Tally| {
             for variant in 0..2 {
@@ -589,10 +702,10 @@ pub fn run(ctx: &Ctx) {
                 }
             }
         });
-        ctx.space("scale: 1..=500 distinct records (23 sizes around powers of two) under two owner names, the authoritative one first / in the middle / last, all long-lived or TTLs cycling through 1,2,1000,0,2; read back during insertion, for 3 s afterwards and after a re-reception", (cases.len() * 2) as u64, "complete");
+        ctx.space("scale: 1..=1100 (4100 thorough) distinct records (29+ sizes around powers of two) under two owner names, the authoritative one first / in the middle / last, all long-lived or TTLs cycling through 1,2,1000,0,2; read back during insertion, for 3 s afterwards and after a re-reception", (cases.len() * 2) as u64, "complete");
     }
     if thorough {
-        // every history of length <= 5, no deduplication
+        // every history of length <= 6, no deduplication
         let n = all.len();
         let firsts: Vec<usize> = (0..n * n).collect();
         let total = std::sync::atomic::AtomicU64::new(0);
@@ -603,22 +716,55 @@ pub fn run(ctx: &Ctx) {
             for c in 0..n {
                 for d in 0..n {
                     for e in 0..n {
-                        let h = [all_ref[a], all_ref[b], all_ref[c], all_ref[d], all_ref[e]];
-                        t.evals += 1;
-                        t.transitions += 1;
-                        t.nontrivial += 1;
-                        cnt += 1;
-                        let f = check_history(&w, &h, false);
-                        if !f.is_empty() {
-                            t.outcome("history-bad");
-                            ctx.violations(f);
+                        for g in 0..n {
+                            let h = [all_ref[a], all_ref[b], all_ref[c], all_ref[d], all_ref[e], all_ref[g]];
+                            t.evals += 1;
+                            t.transitions += 1;
+                            t.nontrivial += 1;
+                            cnt += 1;
+                            let f = check_history(&w, &h, false);
+                            if !f.is_empty() {
+                                t.outcome("history-bad");
+                                ctx.violations(f);
+                            }
                         }
                     }
                 }
             }
             total.fetch_add(cnt, std::sync::atomic::Ordering::Relaxed);
         });
-        ctx.space("every history of exactly 5 operations over the 27-operation menu, without deduplication (shorter histories are their prefixes' states, covered above)", total.load(std::sync::atomic::Ordering::Relaxed), "complete");
+        ctx.space("every history of exactly 6 operations over the 27-operation menu, without deduplication (shorter histories are their prefixes' states, covered above)", total.load(std::sync::atomic::Ordering::Relaxed), "complete");
+    }
+    // the real services and the real clock
+    {
+        let env_ok = crate::engine::loopback_multicast_works();
+        let mut ran = 0u64;
+        let mut why: Option<String> = if env_ok { None } else { Some("a raw socket joined to 224.0.0.251:5353 does not receive a datagram sent to the group from this host".to_string()) };
+        if env_ok {
+            let handles: Vec<_> = [(false, false), (false, true), (true, false), (true, true)]
+                .into_iter()
+                .enumerate()
+                .map(|(k, (asy, flush))| std::thread::spawn(move || (k, socket_expiry_case(k, asy, flush))))
+                .collect();
+            let mut t = Tally::default();
+            for h in handles {
+                match h.join() {
+                    Ok((_, Ok(f))) => {
+                        ran += 1;
+                        t.evals += 1;
+                        t.nontrivial += 1;
+                        t.transitions += 3;
+                        t.outcome(if f.is_empty() { "expired-on-time" } else { "socket-expiry-bad" });
+                        ctx.violations(f);
+                    }
+                    Ok((_, Err(e))) => why = Some(format!("services could not be started: {}", e)),
+                    Err(_) => why = Some("stage thread died".to_string()),
+                }
+            }
+            ctx.merge(t);
+        }
+        ctx.set_extra("socket_expiry_stage", json!({"ran": ran > 0, "cases": ran, "reason": why}));
+        ctx.space("real services, real clock: a sync and a tokio ServiceDiscovery each hear one announcement from a raw UDP peer (TTL 1; TTL 120 with the cache-flush bit), list the peer, and must have dropped it 1.8 s and 2.4 s later", ran, "complete for the four cases");
     }
     // real-clock validation of the seam
     let traces = real_traces();
@@ -660,6 +806,9 @@ pub fn run(ctx: &Ctx) {
 pub fn replay(case: &Value) -> Vec<Finding> {
     let hist: Vec<Op> = serde_json::from_value(case["history"].clone()).unwrap_or_default();
     let w = world();
+    if case["kind"].as_str() == Some("socket-expiry") {
+        return socket_expiry_case(case["k"].as_u64().unwrap_or(0) as usize + 50, case["async"].as_bool().unwrap_or(false), case["flush"].as_bool().unwrap_or(false)).unwrap_or_default();
+    }
     if case["kind"].as_str() == Some("ingest") {
         let seq: Vec<(u32, bool)> = serde_json::from_value(case["seq"].clone()).unwrap_or_default();
         return check_ingest(&seq, case["gap"].as_u64().unwrap_or(0), case["async"].as_bool().unwrap_or(false));
